@@ -6,6 +6,9 @@ import PPLV.Widen.ImplH79ProofsGen
 import PPLV.Widen.ImplBHRZ03Proofs
 import PPLV.Widen.ImplBHRZ03ProofsNNC
 import PPLV.Widen.ProofsConv
+import PPLV.Widen.ImplH79ProofsEngine
+import PPLV.Widen.ImplH79ProofsEngineBridge4
+import PPLV.Widen.ImplH79ProofsEngineMinEx
 
 /-!
 # C08 stage 2 — the polyhedra widenings as coded: `H79_widening_assign`, `BHRZ03_widening_assign`
@@ -334,6 +337,73 @@ example : certLess (setCert 1 (den false 1 [⟨[0, 1], false⟩])) (setCert 1 (d
     xEx_wf yEx_sub_xEx hne
 
 /-! ### every ascending chain stabilises -/
+
+/-! ### the contract `MinimalDD` derived from the conversion engine (closed polyhedra)
+
+`MinimalDD.hfacet` and `MinimalDD.hymin` are no longer bare assumptions: they follow from `EngineDD`
+(`PPLV/Widen/ImplH79ProofsEngine0.lean`), which is PROVED of the output of the engine model `PPLV.Conv.minimize`
+from `C01.conversion_dd_pair`, `C01.minimize_same_set`, `C01.minimize_minimal_form` and the echelon form of
+`gauss`, plus `GPos` (proved when the positivity constraint is a row of the system given to `minimize`) and
+`FacetPoints` (every non-tautological inequality is saturated by a point of the generator system).
+`FacetPoints` is the one clause NOT yet derived from the engine model: it needs the back-substituted normal
+form of the inequalities together with the independence rule (a Farkas-type argument); without it the
+minimum-cardinality clause is false (`h79_engine_contract_needs_facetPoints`). -/
+
+/-- **`MinimalDD` from the engine's guarantees** -/
+theorem h79_minimalDD_of_engine (n : Nat) (y : YMin) (hy : EngineDD n y) (hgp : GPos y) (hfp : FacetPoints y) :
+    MinimalDD n y := minimalDD_of_engine n y hy hgp hfp
+
+example : MinimalDD 1 yGood :=
+  h79_minimalDD_of_engine 1 yGood engine_yGood (by intro g hg; revert g hg; decide) facetPoints_yGood
+
+/-- **the output of the engine model satisfies `EngineDD` and `GPos`**: `minimize(true, cs, gs, sat)` on a
+    closed constraint system of dimension `n` that carries its positivity row and is not reported empty. -/
+theorem h79_engine_contract (n : Nat) (source : List PPLV.Conv.LRow) (sat0 : List PPLV.Conv.BRow)
+    (hsz : n + 1 < 2 ^ 64) (hsrc : source.length < 2 ^ 64) (hlen : ∀ s ∈ source, s.v.length = n + 1)
+    (hne : (PPLV.Conv.minimize true false (n + 1) source sat0).empty = false)
+    (hpos : (⟨false, 1 :: List.replicate n 0⟩ : PPLV.Conv.LRow) ∈ source) :
+    EngineDD n (ofEngine (PPLV.Conv.minimize true false (n + 1) source sat0)) ∧
+    GPos (ofEngine (PPLV.Conv.minimize true false (n + 1) source sat0)) :=
+  ⟨engineDD_of_minimize n source sat0 hsz hsrc hlen hne, gpos_of_minimize n source sat0 hsz hsrc hlen hne hpos⟩
+
+example : EngineDD 1 (ofEngine (PPLV.Conv.minimize true false 2 [⟨false, [0, 1]⟩, ⟨false, [3, -1]⟩, ⟨false, [1, 0]⟩] [])) ∧
+    GPos (ofEngine (PPLV.Conv.minimize true false 2 [⟨false, [0, 1]⟩, ⟨false, [3, -1]⟩, ⟨false, [1, 0]⟩] [])) :=
+  h79_engine_contract 1 _ [] (by norm_num) (by simp) (by decide) (by decide) (by simp)
+
+/-- `EngineDD` alone does not give the minimum-cardinality clause: `{x = 0, 1 + x ≥ 0}` (the positivity
+    constraint in disguise, which the real `simplify` turns into a tautology by back-substitution) has every
+    field of `EngineDD`, two non-tautological rows, and is denoted by one row. -/
+theorem h79_engine_contract_needs_facetPoints :
+    EngineDD 1 yBad ∧
+      (yBad.conSys.filter (!·.isTautological false)).length ≠ minCons 1 (den false 1 yBad.conSys) :=
+  hymin_fails_without_facetPoints
+
+/-- **non-stationary ⇒ the H79 certificate strictly decreases, for a `y` minimised by the engine model.**
+    `_partial`: the only assumption left about the minimised system is `FacetPoints` (see above); `hymin` and
+    `hfacet` are derived. -/
+theorem h79_certificate_decreases_engine_partial (n : Nat) (x : YMin) (source : List PPLV.Conv.LRow)
+    (sat0 : List PPLV.Conv.BRow)
+    (hsz : n + 1 < 2 ^ 64) (hsrc : source.length < 2 ^ 64) (hlen : ∀ s ∈ source, s.v.length = n + 1)
+    (hne : (PPLV.Conv.minimize true false (n + 1) source sat0).empty = false)
+    (hpos : (⟨false, 1 :: List.replicate n 0⟩ : PPLV.Conv.LRow) ∈ source)
+    (hfp : FacetPoints (ofEngine (PPLV.Conv.minimize true false (n + 1) source sat0)))
+    (hxwf : WFRows n x.conSys)
+    (hyx : den false n (ofEngine (PPLV.Conv.minimize true false (n + 1) source sat0)).conSys ⊆ den false n x.conSys)
+    (hne' : den false n (h79Rows x (ofEngine (PPLV.Conv.minimize true false (n + 1) source sat0))) ≠
+            den false n (ofEngine (PPLV.Conv.minimize true false (n + 1) source sat0)).conSys) :
+    certLess (setCert n (den false n (h79Rows x (ofEngine (PPLV.Conv.minimize true false (n + 1) source sat0)))))
+      (setCert n (den false n (ofEngine (PPLV.Conv.minimize true false (n + 1) source sat0)).conSys)) := by
+  obtain ⟨hE, hG⟩ := h79_engine_contract n source sat0 hsz hsrc hlen hne hpos
+  exact h79_certificate_decreases_partial n x _ (minimalDD_of_engine n _ hE hG hfp) hxwf hyx hne'
+
+/-- the same from the abstract guarantees (any `y` with `EngineDD`, `GPos`, `FacetPoints`) -/
+theorem h79_certificate_decreases_of_engineDD (n : Nat) (x y : YMin) (hy : EngineDD n y) (hgp : GPos y)
+    (hfp : FacetPoints y) (hxwf : WFRows n x.conSys)
+    (hyx : den false n y.conSys ⊆ den false n x.conSys)
+    (hne : den false n (h79Rows x y) ≠ den false n y.conSys) :
+    certLess (setCert n (den false n (h79Rows x y))) (setCert n (den false n y.conSys)) :=
+  h79_certificate_decreases_partial n x y (minimalDD_of_engine n y hy hgp hfp) hxwf hyx hne
+
 
 /-- minimised closed polyhedra -/
 abbrev MinPoly (n : Nat) := {y : YMin // MinimalDD n y}
